@@ -16,18 +16,20 @@ var ErrCut = errors.New("verif: connection cut")
 // then closes the underlying connection in both directions (a permanent cut).
 type CutConn struct {
 	net.Conn
-	mu       sync.Mutex
-	written  int64
-	read     int64
-	cutWrite int64 // cut when written would exceed this; <0 = never
-	cutRead  int64
-	cut      atomic.Bool
-	CutAt    atomic.Int64 // logical tick when the cut happened
-	onCut    func()
-	stall    atomic.Bool   // reads block until the connection is closed
-	stallCut time.Duration // when the read threshold is reached: stop reading for this long, then cut
-	gone     chan struct{}
-	goneOnce sync.Once
+	mu        sync.Mutex
+	written   int64
+	read      int64
+	cutWrite  int64 // cut when written would exceed this; <0 = never
+	cutRead   int64
+	cut       atomic.Bool
+	transient bool
+	faulted   atomic.Bool
+	CutAt     atomic.Int64 // logical tick when the cut happened
+	onCut     func()
+	stall     atomic.Bool   // reads block until the connection is closed
+	stallCut  time.Duration // when the read threshold is reached: stop reading for this long, then cut
+	gone      chan struct{}
+	goneOnce  sync.Once
 	// StallWriteAfter, if >= 0, makes Write block (until the conn is closed) once that many bytes were written.
 	WriteLog func(n int)
 }
@@ -43,6 +45,16 @@ func (c *CutConn) ArmWrite(n int64) { c.mu.Lock(); c.cutWrite = n; c.mu.Unlock()
 func (c *CutConn) ArmRead(n int64) { c.mu.Lock(); c.cutRead = n; c.mu.Unlock() }
 
 func (c *CutConn) OnCut(f func()) { c.onCut = f }
+
+// Transient makes the armed write threshold a transient fault: the write that crosses it is
+// truncated there and returns an error, but the connection stays open and later writes pass.
+func (c *CutConn) Transient() { c.mu.Lock(); c.transient = true; c.mu.Unlock() }
+
+// Faulted reports whether the transient write fault has happened.
+func (c *CutConn) Faulted() bool { return c.faulted.Load() }
+
+// ErrTransient is returned by the one truncated write of a transient fault.
+var ErrTransient = errors.New("verif: transient write failure (short write)")
 
 func (c *CutConn) Written() int64 { c.mu.Lock(); defer c.mu.Unlock(); return c.written }
 func (c *CutConn) ReadN() int64   { c.mu.Lock(); defer c.mu.Unlock(); return c.read }
@@ -85,6 +97,17 @@ func (c *CutConn) Write(b []byte) (int, error) {
 			allowed = 0
 		}
 		cutting = true
+		if c.transient {
+			// a transient fault is a *short* write: at least one byte, never all of them
+			if allowed == 0 {
+				allowed = 1
+			}
+			if allowed >= int64(len(b)) {
+				// cannot be short: let it pass, the next write is hit instead
+				allowed, cutting = int64(len(b)), false
+				c.cutWrite = c.written + allowed
+			}
+		}
 	}
 	c.mu.Unlock()
 	n := 0
@@ -98,6 +121,16 @@ func (c *CutConn) Write(b []byte) (int, error) {
 	c.written += int64(n)
 	c.mu.Unlock()
 	if cutting {
+		c.mu.Lock()
+		tr := c.transient
+		if tr {
+			c.cutWrite = -1
+		}
+		c.mu.Unlock()
+		if tr {
+			c.faulted.Store(true)
+			return n, ErrTransient
+		}
 		c.doCut()
 		return n, ErrCut
 	}
